@@ -11,7 +11,7 @@ HAS_MODEL_OUT = True
 RULE = ("data files biased to the shapes where the closest-key reader could differ (located clients below "
         "delegations, wildcard in a parent zone above a child zone, sibling names that are byte prefixes, 1- and "
         "63-byte labels, names >= 128 bytes, root zone), compiled to CDB / RocksDB v1 keys / RocksDB v2 keys "
-        "(builder and batch compilation); 24-40 queries per file from four clients through the three real handlers, "
+        "(compiler options varied per file: bulk builder, batches of default size, single-record batches with eight in flight and four parser workers); 24-40 queries per file from four clients through the three real handlers, "
         "responses compared pairwise; non-trivial = distinct (file class, query name, type, client location, "
         "response class) other than REFUSED")
 TRUSTED_BASE = [
